@@ -213,7 +213,14 @@ fn cond_text(c: &Value) -> String {
     }
 }
 
+/// The mark a suspended goal leaves: its operation's index, or the index of the operation it is
+/// a verbatim copy of (two posts of one and the same goal term are two suspended goals).
+fn mark_id(op: &Value, id: usize) -> usize {
+    op["mid"].as_u64().map(|m| m as usize).unwrap_or(id)
+}
+
 fn op_text(op: &Value, id: usize) -> String {
+    let id = mark_id(op, id);
     match op["op"].as_str().unwrap_or("") {
         "dif" => format!("dif({}, {})", term_text(&term_of(&op["s"])), term_text(&term_of(&op["t"]))),
         "eq" => format!("{} = {}", term_text(&term_of(&op["s"])), term_text(&term_of(&op["t"]))),
@@ -337,11 +344,11 @@ fn model(ops: &[(usize, Value)], probes: &[Value]) -> Expect {
             }
             "eq" => st.unify(&term_of(&op["s"]), &term_of(&op["t"])) && settle(&mut st, &mut p, &mut woken),
             "freeze" => {
-                p.freezes.push((*id, op["v"].as_u64().unwrap_or(0) as usize % 3, op["act"].clone()));
+                p.freezes.push((mark_id(op, *id), op["v"].as_u64().unwrap_or(0) as usize % 3, op["act"].clone()));
                 settle(&mut st, &mut p, &mut woken)
             }
             "when" => {
-                p.whens.push((*id, op["cond"].clone(), op["act"].clone()));
+                p.whens.push((mark_id(op, *id), op["cond"].clone(), op["act"].clone()));
                 settle(&mut st, &mut p, &mut woken)
             }
             _ => true,
@@ -535,6 +542,22 @@ impl C26 {
                 json!({"op": "when", "cond": gen_cond(rng, 2), "act": act})
             };
             ops.push(op);
+        }
+        // one case in five posts a goal twice: the same goal term (same mark), on the same
+        // variable/condition or on another variable that may get aliased to it
+        let mut n = n;
+        if rng.chance(1, 5) {
+            let susp: Vec<usize> = (0..ops.len()).filter(|i| ops[*i]["op"] == "freeze" || ops[*i]["op"] == "when").collect();
+            if !susp.is_empty() {
+                let k = *rng.pick(&susp);
+                let mut c = ops[k].clone();
+                c["mid"] = json!(k);
+                if c["op"] == "freeze" && rng.chance(1, 2) {
+                    c["v"] = json!(rng.below(3));
+                }
+                ops.push(c);
+                n += 1;
+            }
         }
         // orders: permutations of 0..n (the first is the identity)
         let mut orders: Vec<Vec<u64>> = vec![(0..n).collect()];
